@@ -6,6 +6,9 @@ import Fosite.Driver.PureHMAC
 import Fosite.Driver.PureRedirect
 import Fosite.Driver.PureRender
 import Fosite.Driver.PureClientAuth
+import Fosite.Driver.PureExpiry
+import Fosite.Driver.PureAssertion
+import Fosite.Driver.PureIDToken
 namespace Fosite.Driver
 open Fosite
 
@@ -20,6 +23,9 @@ def pureModel (fs : List String) : Option String :=
   | "redirect" :: _ => pureModelRedirect fs
   | "render" :: _ => pureModelRender fs
   | "clientauth" :: _ => pureModelClientAuth fs
+  | "expiry" :: _ => pureModelExpiry fs
+  | "assertion" :: _ => pureModelAssertion fs
+  | "idtoken" :: _ => pureModelIDToken fs
   | _ => none
 
 /-- spec side: the documented meaning, used as the monitor oracle on implementation outputs -/
@@ -33,6 +39,9 @@ def pureSpec (fs : List String) : Option String :=
   | "redirect" :: _ => pureSpecRedirect fs
   | "render" :: _ => pureSpecRender fs
   | "clientauth" :: _ => pureSpecClientAuth fs
+  | "expiry" :: _ => pureSpecExpiry fs
+  | "assertion" :: _ => pureSpecAssertion fs
+  | "idtoken" :: _ => pureSpecIDToken fs
   | _ => none
 
 end Fosite.Driver
